@@ -27,6 +27,7 @@ type refChain struct {
 	bal       map[uint64][]*big.Int
 	nonce     map[uint64][]uint64
 	watch     []common.Address
+	slots     map[uint64]map[common.Address][]byte // height -> counter contract -> storage slot 0
 }
 
 func (rc *refChain) record(n *chainkit.Node, b *types.Block) {
@@ -40,6 +41,15 @@ func (rc *refChain) record(n *chainkit.Node, b *types.Block) {
 		non = append(non, n.App.GetNonce(a))
 	}
 	rc.bal[h], rc.nonce[h] = bal, non
+}
+
+func (rc *refChain) recordContracts(n *chainkit.Node, h uint64, contracts []common.Address) {
+	st := n.App.VerifStoreState()
+	m := map[common.Address][]byte{}
+	for _, a := range contracts {
+		m[a] = st.GetState(a, common.Hash{})
+	}
+	rc.slots[h] = m
 }
 
 type blockInfo struct {
@@ -196,17 +206,18 @@ var perms = []string{"ABC", "ACB", "BAC", "BCA", "CAB", "CBA"}
 
 // trial describes one simulated crash.
 type trial struct {
-	Height uint64   `json:"height"`
-	K      int64    `json:"k"`
-	W      int64    `json:"W"`
-	Cut    string   `json:"cut"`
-	Order  string   `json:"writer_order,omitempty"`
-	Procs  int      `json:"gomaxprocs"`
-	Block  string   `json:"block_kind"`
-	Txs    []string `json:"block_txs"`
-	Units  []string `json:"units_of_uninterrupted_commit,omitempty"`
-	Last   string   `json:"last_unit_written,omitempty"`
-	Next   string   `json:"first_unit_dropped,omitempty"`
+	Height   uint64   `json:"height"`
+	K        int64    `json:"k"`
+	W        int64    `json:"W"`
+	Cut      string   `json:"cut"`
+	Order    string   `json:"writer_order,omitempty"`
+	Procs    int      `json:"gomaxprocs"`
+	Block    string   `json:"block_kind"`
+	Txs      []string `json:"block_txs"`
+	Units    []string `json:"units_of_uninterrupted_commit,omitempty"`
+	UndoFile string   `json:"undo_file,omitempty"`
+	Last     string   `json:"last_unit_written,omitempty"`
+	Next     string   `json:"first_unit_dropped,omitempty"`
 }
 
 type pendingBlock struct {
@@ -236,7 +247,7 @@ func runCrash(c *core.Ctx) {
 	x.caseProcs = []int{2, 16}[(c.Index/crashEvery)%2]
 	runtime.GOMAXPROCS(x.caseProcs)
 	defer runtime.GOMAXPROCS(x.procs)
-	x.ref = &refChain{hash: map[uint64]common.Hash{}, stateHash: map[uint64]common.Hash{}, bal: map[uint64][]*big.Int{}, nonce: map[uint64][]uint64{}}
+	x.ref = &refChain{hash: map[uint64]common.Hash{}, stateHash: map[uint64]common.Hash{}, bal: map[uint64][]*big.Int{}, nonce: map[uint64][]uint64{}, slots: map[uint64]map[common.Address][]byte{}}
 	for _, a := range g.Accounts {
 		x.ref.watch = append(x.ref.watch, a.Addr)
 	}
@@ -282,6 +293,19 @@ func runCrash(c *core.Ctx) {
 	for bi, kind := range plan {
 		height := base.Status.LastBlockHeight + 1
 		txs, err := x.ge.fill(base, kind)
+		// contract storage: a counter contract is created in the first block and called in later
+		// non-empty blocks (at least once per chain)
+		if err == nil && kind != "empty" {
+			var d string
+			if bi == 0 {
+				d, err = x.ge.deploy(base)
+			} else if r.Bool() || (x.ge.calls == 0 && bi >= len(plan)-2) {
+				d, err = x.ge.call(base)
+			}
+			if d != "" {
+				txs = append(txs, d)
+			}
+		}
 		if err != nil {
 			c.Inconclusive(fmt.Sprintf("generator: block %d (%s): %v", height, kind, err))
 			return
@@ -320,6 +344,8 @@ func runCrash(c *core.Ctx) {
 			return
 		}
 		x.ref.record(base, block)
+		x.ge.resolve(base)
+		x.ref.recordContracts(base, height, x.ge.contracts)
 		info := blockInfo{Height: height, Kind: kind, Txs: txs}
 		var spent []*chainkit.OwnedOut
 		for _, t := range block.Data.Txs {
@@ -448,6 +474,9 @@ func (x *crashRun) runTrial(pb *pendingBlock, t *trial, k int64, gt *gate) ([]un
 		}
 		c.Count("clean_restarts", 1)
 	}
+	if nd.kv {
+		nd.c.walPath = filepath.Join(nd.dir, walName)
+	}
 	nd.c.arm(k, true, gt)
 	var acceptErr error
 	var acceptPanic interface{}
@@ -457,6 +486,13 @@ func (x *crashRun) runTrial(pb *pendingBlock, t *trial, k int64, gt *gate) ([]un
 	}()
 	seq, dropped, log := nd.c.units()
 	n.Close()
+	if nd.kv && k >= 0 && int(k) < len(log) {
+		// the undo file is append-only during one commit (after the initial truncation): cut it to
+		// what had been written when the first dropped database write was attempted
+		os.Truncate(nd.c.walPath, log[k].Wal)
+		t.UndoFile = "as of the first dropped database write"
+		c.Count("undo_file_cuts", 1)
+	}
 	if gt != nil {
 		gt.stop()
 	}
@@ -470,6 +506,9 @@ func (x *crashRun) runTrial(pb *pendingBlock, t *trial, k int64, gt *gate) ([]un
 		}
 		t.K, t.W = seq, seq
 		pb.log = log
+		if nd.kv {
+			t.UndoFile = "complete"
+		}
 	} else {
 		if seq != t.W {
 			c.Count("trials_with_different_unit_count", 1)
@@ -491,6 +530,29 @@ func (x *crashRun) runTrial(pb *pendingBlock, t *trial, k int64, gt *gate) ([]un
 	c.Count("crash_points", 1)
 	c.Count("cut:"+t.Cut, 1)
 
+	var alt *dbSnap
+	if nd.kv && k >= 1 && int(k) < len(log) && log[k-1].WalAfter != log[k].Wal {
+		alt = snapshot(nd)
+	}
+	x.judge(pb, t, nd, fb, log)
+	if alt != nil {
+		// the undo file grew between the last applied and the first dropped database write: the
+		// crash may also have hit before that file write
+		t2 := *t
+		t2.UndoFile = "as of the last applied database write"
+		nd4 := alt.restore(x.newDir())
+		os.Truncate(filepath.Join(nd4.dir, walName), log[k-1].WalAfter)
+		x.judge(pb, &t2, nd4, fb, log)
+		os.RemoveAll(nd4.dir)
+		c.Count("undo_file_variants", 1)
+	}
+	return log, true
+}
+
+// judge restarts a node from the surviving bytes nd, evaluates the oracle and lets the restarted
+// node continue.
+func (x *crashRun) judge(pb *pendingBlock, t *trial, nd *nodeDBs, fb *types.Block, log []unit) {
+	c := x.c
 	// ---- restart from the surviving bytes
 	nd2 := nd.reopen()
 	rawStatus, _ := consensus.LoadStatus(nd2.wrap("consensus_state", nd2.raw["consensus_state"]))
@@ -502,11 +564,11 @@ func (x *crashRun) runTrial(pb *pendingBlock, t *trial, k int64, gt *gate) ([]un
 	n2, err, pan := openWrapped(x.g, nd2)
 	if pan != nil {
 		x.viol(t, "crash/restart/panic", fmt.Sprintf("OpenNode panicked: %v", pan), nil)
-		return log, true
+		return
 	}
 	if err != nil {
 		x.viol(t, "crash/restart/error", fmt.Sprintf("OpenNode failed: %v", err), nil)
-		return log, true
+		return
 	}
 	defer n2.Close()
 	recoveryUnits, _, _ := nd2.c.units()
@@ -515,7 +577,7 @@ func (x *crashRun) runTrial(pb *pendingBlock, t *trial, k int64, gt *gate) ([]un
 	P := pb.P
 	if h != P && h != P+1 {
 		x.viol(t, "crash/blockstore/height-out-of-range", fmt.Sprintf("BlockStore.Height()=%d after a crash while committing %d", h, P+1), nil)
-		return log, true
+		return
 	}
 	if h == P+1 {
 		c.Count("restart_block_survived", 1)
@@ -550,11 +612,11 @@ func (x *crashRun) runTrial(pb *pendingBlock, t *trial, k int64, gt *gate) ([]un
 		consensus.NewConsensusState(csConfig(), n2.Status.Copy(), n2.BlockExec, n2.App, n2.Mempool, n2.EvPool)
 	}); pan != nil {
 		x.viol(t, "crash/restart/consensus-state-panic", fmt.Sprintf("NewConsensusState on the restarted node panicked: %v", pan), nil)
-		return log, true
+		return
 	}
 
 	if !consistent {
-		return log, true
+		return
 	}
 
 	// ---- the restarted node must be able to continue
@@ -565,18 +627,18 @@ func (x *crashRun) runTrial(pb *pendingBlock, t *trial, k int64, gt *gate) ([]un
 		pan := tryPanic(func() { ok, err = n2.Accept(fb2, rp2, pb.commit, false) })
 		if pan != nil || err != nil || !ok {
 			x.viol(t, "crash/wedged/cannot-recommit-interrupted-block", fmt.Sprintf("re-accepting block %d after restart: checked=%v err=%v panic=%v", P+1, ok, err, pan), nil)
-			return log, true
+			return
 		}
 		c.Count("recommits", 1)
 		if !o.check(P+1, nil) {
-			return log, true
+			return
 		}
 	}
 	x.continueChain(t, n2, pb.commit, o)
 	if post != nil && recoveryUnits > 0 {
 		x.recoveryCrashes(t, post, recoveryUnits, h)
 	}
-	return log, true
+	return
 }
 
 // recoveryCrashes: the restart itself writes (the one-block status rebuild). Crash it after each
